@@ -247,8 +247,19 @@ func init() {
 			// the output slice is caller-owned: fresh (zero) or holding earlier contents (e.g. a previous hash)
 			dirty := rapid.IntRange(0, 2).Draw(t, "dirty_res")
 			spare := rapid.IntRange(0, 1).Draw(t, "input_spare_capacity")
-			return [][]byte{{byte(cfg[0]), byte(cfg[1]), byte(dirty), byte(spare)}, u32(maxN), babybearVals(t, n, "v")},
-				[]string{"sis_fast512_16:" + b2s(cfg[0] == 9 && cfg[1] == 16), "sis_dirty_res:" + itoa(dirty), "sis_input_dirty_spare_capacity:" + itoa(spare)}, true
+			// the instance is long-lived in real use: an earlier Hash of another (often longer) message on the SAME
+			// instance must not influence this one (scratch buffers kept on the instance, lazily built tables)
+			prev := rapid.IntRange(0, 2).Draw(t, "prev_hash")
+			prevN := 0
+			if prev != 0 {
+				prevN = rapid.OneOf(rapid.IntRange(0, maxN), rapid.IntRange(n, maxN+1)).Draw(t, "prev_n")
+				if prevN > maxN {
+					prevN = maxN
+				}
+			}
+			return [][]byte{{byte(cfg[0]), byte(cfg[1]), byte(dirty), byte(spare), byte(prev)}, u32(maxN), babybearVals(t, n, "v"), u32(prevN)},
+				[]string{"sis_fast512_16:" + b2s(cfg[0] == 9 && cfg[1] == 16), "sis_dirty_res:" + itoa(dirty), "sis_input_dirty_spare_capacity:" + itoa(spare),
+					"sis_prev_hash_same_instance:" + itoa(prev), "sis_prev_longer_partial_block:" + b2s(prev != 0 && prevN%256 > n%256 && n%256 != 0)}, true
 		},
 		run: func(a [][]byte) [][]byte {
 			r, err := sis.NewRSis(5, int(a[0][0]), int(a[0][1]), gu32(a[1]))
@@ -263,6 +274,17 @@ func init() {
 					w[i].SetUint64(uint64(i)*40503 + 11)
 				}
 				v = w[:len(v)]
+			}
+			if len(a[0]) > 4 && a[0][4] != 0 && len(a) > 3 { // an earlier hash of another message on the same instance
+				pv := make([]fr.Element, gu32(a[3]))
+				for i := range pv {
+					if a[0][4] == 1 {
+						pv[i].SetUint64(uint64(i)*2246822519 + 3)
+					} else {
+						pv[i].SetUint64(uint64(i%65535) + 1) // within the norm bound of every configuration
+					}
+				}
+				_ = r.Hash(pv, make([]fr.Element, r.Degree))
 			}
 			res := guardSlice[fr.Element](r.Degree)
 			// the key material is exported (A, Ag): what the constructor leaves there, and what is there after
